@@ -169,6 +169,9 @@ def typed(nf):
     return f"{{| tk := {'KNested' if isinstance(nf, NestedFrame) else 'KPlain'}; tcols := {cq_list(cols)} |}}"
 
 
+TOTAL_OPS = {"concat_same", "concat_query", "iloc_rows", "iloc_empty", "mask_rows", "select_cols"}
+
+
 EFFECTS = {
     "select_cols": lambda cur, out: "(EKeepCols (fun c => negb (str_eqb c %s)))" % cq_s("b"),
     "add_nested": lambda cur, out: "(EAddNested %s %s)" % (cq_s([c for c in out.columns if c not in cur.columns][0]), cq_list([cq_s("z")])),
@@ -255,6 +258,9 @@ def generate(ctx):
             rng.shuffle(first)
             rng.shuffle(rest)
             chains += first + rest[: 150 * ctx.scale]
+            # frames WITHOUT rows through every operation that combines frames (always: the pieces being empty is a corner of its own)
+            chains += [c_ for c_ in [("iloc_empty", "concat_same"), ("query_all_out", "concat_same"), ("iloc_empty", "concat_query"),
+                                     ("iloc_empty", "join"), ("iloc_empty", "merge")] if all(n_ in ops for n_ in c_) and c_ not in chains]
         else:
             chains += pairs
             triples = list(itertools.product(names, repeat=3))
@@ -271,6 +277,11 @@ def generate(ctx):
                 if "lc" not in cur.columns:
                     break              # the nested column was deliberately left behind (count_nested(join=False)): the chain ends
                 res = attempt(lambda: ops[name](cur))
+                if res[0] == "err" and name in TOTAL_OPS:
+                    # row / column selections and concatenations of a frame with itself ask nothing of their argument beyond being a
+                    # usable NestedFrame (which the previous step established): a raise here means the result is not obtained at all
+                    step_problems.append(f"step {depth} {name}: raises {res[1]} on a closed, usable frame")
+                    break
                 if res[0] == "err":
                     # whether an operation accepts its argument is the business of the other properties; here: what it RETURNS
                     stopped = f"step {depth} {name}: raises {res[1]} (chain ends; not a closure verdict)"
